@@ -1,4 +1,5 @@
 #include "riddle_parser.h"
+#include <memory>
 #include <cassert>
 
 namespace riddle
@@ -128,7 +129,7 @@ namespace riddle
 
     typedef_declaration *parser::_typedef_declaration()
     {
-        id_token *pt = nullptr;
+        std::unique_ptr<id_token> pt; // the declaration copies the token: this one is only needed until then..
         expression *e;
 
         if (!match(TYPEDEF_ID))
@@ -137,19 +138,19 @@ namespace riddle
         switch (tk->sym)
         {
         case BOOL_ID:
-            pt = new id_token(0, 0, 0, 0, BOOL_KEYWORD);
+            pt.reset(new id_token(0, 0, 0, 0, BOOL_KEYWORD));
             break;
         case INT_ID:
-            pt = new id_token(0, 0, 0, 0, INT_KEYWORD);
+            pt.reset(new id_token(0, 0, 0, 0, INT_KEYWORD));
             break;
         case REAL_ID:
-            pt = new id_token(0, 0, 0, 0, REAL_KEYWORD);
+            pt.reset(new id_token(0, 0, 0, 0, REAL_KEYWORD));
             break;
         case TP_ID:
-            pt = new id_token(0, 0, 0, 0, TP_KEYWORD);
+            pt.reset(new id_token(0, 0, 0, 0, TP_KEYWORD));
             break;
         case STRING_ID:
-            pt = new id_token(0, 0, 0, 0, STRING_KEYWORD);
+            pt.reset(new id_token(0, 0, 0, 0, STRING_KEYWORD));
             break;
         default:
             error("expected primitive type..");
